@@ -1290,29 +1290,15 @@ func runC05(c *Ctx) {
 	// L7 Unlock cancels the armed timer
 	{
 		fn := r.unlock
-		isCancel := func(x ssa.Instruction) bool {
-			call, ok := x.(*ssa.Call)
-			if !ok || !call.Call.IsInvoke() || call.Call.Method.Name() != "Cancel" {
-				return false
-			}
-			// the receiver is loaded from the timer slot
-			for _, o := range ir.Origins(call.Call.Value) {
-				if ta, isTA := o.(*ssa.TypeAssert); isTA {
-					if ld, isLd := ta.X.(*ssa.Call); isLd && ir.CalleeFullName(ld) == "(*sync/atomic.Value).Load" {
-						if _, isSlot := fieldAddrOf(ld.Call.Args[0], r.timerF); isSlot {
-							return true
-						}
-					}
-				}
-			}
-			return false
-		}
-		c.NoPath("C05.L7", "Unlock cancels the armed renewal", nil, ir.Query{Fn: fn, Block: isCancel, Target: ir.IsExit},
+		// the timer read from the slot (plain or comma-ok assertion); the edge on which the slot is found to hold no timer
+		// has nothing to cancel (v_lock_shapes.go)
+		isCancel := r.cancelsSlotTimerVL
+		c.NoPath("C05.L7", "Unlock cancels the armed renewal", nil, ir.Query{Fn: fn, Block: isCancel, BlockFact: r.slotHoldsNoTimerVL, Target: ir.IsExit},
 			"Unlock can return without cancelling the armed renewal: the renewal of a finished tenure keeps running")
 		// cancel before delete
 		ir.Instrs(fn, func(in ssa.Instruction) {
 			if r.storageCall(in, "Delete") != nil {
-				c.NoPath("C05.L7", "renewal cancelled before the record is deleted", in, ir.Query{Fn: fn, Block: isCancel, Target: func(x ssa.Instruction) bool { return x == in }},
+				c.NoPath("C05.L7", "renewal cancelled before the record is deleted", in, ir.Query{Fn: fn, Block: isCancel, BlockFact: r.slotHoldsNoTimerVL, Target: func(x ssa.Instruction) bool { return x == in }},
 					"the record is deleted before the renewal timer is cancelled")
 			}
 		})
@@ -1672,6 +1658,17 @@ func (c *Ctx) leaseOnWrite(r *lockRoles, rule string) {
 							}
 						}
 					}
+				}
+			}
+			if !ok && cell != nil {
+				// the record points to a cell of the call that is refreshed before every attempt (v_lock_shapes.go)
+				if shape, lease, fresh, why := c.leaseCellVL(r, fn, call, cell); shape {
+					what := "the lock record is written without (or with another) expiration than now + lease: a dead holder's record never lapses, or a live holder's record lapses early"
+					c.Decide(rule, fn, call.Call.Method.Name()+" writes the record with ExpiresAt = now + lease", in, lease, what+" ("+why+")")
+					if lease {
+						c.Decide(rule, fn, "lease counted from the moment of the write", in, fresh, "the expiration is computed once and reused for later attempts: a caller that waited behind another holder creates a record that is already (nearly) expired, its first renewal finds nothing and the record lapses under the holder ("+why+")")
+					}
+					return
 				}
 			}
 			c.Decide(rule, fn, call.Call.Method.Name()+" writes the record with ExpiresAt = now + lease", in, ok, "the lock record is written without (or with another) expiration than now + lease: a dead holder's record never lapses, or a live holder's record lapses early")
